@@ -243,6 +243,25 @@ CLAIMED.update({
     ),
 })
 
+CLAIMED["C20"] = dict(
+    category="proof",
+    text="Theorems: Graph.to_flat_graph (Viz.flatten_all) lists every node of every nesting level exactly once, under its parent, with "
+         "unique hierarchical ids whose string form is injective; enumerate_valid_expansion_states (Viz.enum_states) returns without "
+         "repetition exactly the states in which every expanded container has all enclosing containers expanded, build_expansion_state(depth) "
+         "is one of them and shows exactly the levels <= depth; and the checker Viz.viz_problems reports no problem EXACTLY for the drawings "
+         "satisfying the declarative predicate Faithful (ids declared once, edge ends declared, every node shown iff visible, every data / "
+         "control / ordering dependency - computed at leaf granularity through nested graphs and boundary renames - drawn between visible "
+         "representatives, every edge justified by a dependency / graph input / END target / output). The renderer is not modelled: "
+         "EVERY drawing it produces for the generated graphs (every valid expansion state x both output modes of the interactive data, Mermaid "
+         "at every depth x both modes) is validated by that checker against ground truth read from the real Graph objects; to_flat_graph, the "
+         "state set and build_expansion_state are compared with the model.",
+    design_ref="DESIGN.md section 5 C20",
+    note="partial: faithfulness of the renderer is translation validation per generated drawing by a proved checker, not a theorem about "
+         "renderer code (viz/renderer/*.py, mermaid.py are heuristic and not modelled); known finding F-k (values renamed at container "
+         "boundaries are routed by name). Trusted: the transcription of drawings / Mermaid lines into Viz.drawing literals.",
+    technique="Coq proof (flattening, state enumeration, checker <-> declarative Faithful) + translation validation of every drawing by the proved checker",
+)
+
 REASON_TODO = "not claimed yet: model/theorems for this property are not built in this revision (see DESIGN.md section 10)"
 
 
